@@ -51,13 +51,24 @@ Print Assumptions C05_connection_end.
 
 (* an unexpired durable session keeps accumulating matching messages while detached *)
 Theorem C05_offline_accumulates : forall s tag t id,
-  s_conn (get id (sess s)) = None -> existsb (N.eqb t) (s_subs (get id (sess s))) = true ->
+  s_conn (get id (sess s)) = None -> existsb (smatch false t) (s_subs (get id (sess s))) = true ->
   let r' := get id (sess (fst (publish s tag t))) in
   s_queue r' = s_queue (get id (sess s)) ++ [tag] /\ s_subs r' = s_subs (get id (sess s)).
 Proof.
   intros s tag t id Hc Hs. cbn zeta. rewrite publish_rec. unfold pub_rec. rewrite Hs, Hc. split; reflexivity.
 Qed.
 Print Assumptions C05_offline_accumulates.
+
+(* No Local: a session's own publish is neither handed nor queued to its No-Local subscription; anybody
+   else's publish is *)
+Theorem C05_no_local : forall tag t k r c,
+  sub_topic k = t -> sub_nl k = true -> s_subs r = [k] -> s_conn r = Some c ->
+  pub_out true tag t r = [] /\ pub_rec true tag t r = r /\ pub_out false tag t r = [ODeliver c tag].
+Proof.
+  intros tag t k r c Ht Hn Hs Hc. unfold pub_out, pub_rec, smatch. rewrite Hs, Hc. cbn [existsb].
+  rewrite Ht, Hn, N.eqb_refl. cbn. repeat split.
+Qed.
+Print Assumptions C05_no_local.
 
 (* an elapsed expiry leaves nothing; before the deadline nothing changes *)
 Theorem C05_expiry : forall s dt id e,
@@ -74,7 +85,7 @@ Qed.
 Print Assumptions C05_expiry.
 
 Example C05_nonvacuous :
-  let h := [EConnect 1%N 7%N true false (Some 2000) None; ESubscribe 7%N 3%N; EDisconnect 7%N false None;
+  let h := [EConnect 1%N 7%N true false (Some 2000) None; ESubscribe 7%N 6%N; EDisconnect 7%N false None;
             EPublish 40%N 3%N; ETick 1000; EConnect 2%N 7%N true false (Some 0) None; EDrop 7%N; EPublish 41%N 3%N;
             EConnect 3%N 7%N true false (Some 2000) None] in
   concat (snd (run (init true) h)) =
